@@ -26,7 +26,7 @@ var c09Histories = []string{
 
 func init() {
 	Register(&Prop{ID: "C09",
-		Meta: Meta{Level: "exploration",
+		Meta: Meta{Stages: 2, Level: "exploration",
 			Rule: "real Client+Serve (net/rpc MuxBroker, gRPC broker, gRPC broker with multiplexing); a history of 1-3 abuse steps drawn from {dial without accept, accept without dial, 2-3 dials to one pending ID, accept issued at the expiry instant (5s +- eps) of a parked connection, late accept, several unmatched IDs} issued from either side (plus histories in which the peer is gone altogether: the plugin killed or frozen before Client(), before Dispense or after it, then three unmatched host accepts and dials), then a matched pair on a fresh ID in each direction, a Dispense, and Kill; plus Kill racing a broker operation in flight, one case per go-plugin statement the operation's goroutine passes (profiled in stage 0); fixed matrix (history x side x broker kind) plus seeded histories with schedule noise focused on the brokers; oracle: every unmatched call returns an error within 30s simulated (+ injected delay), the fresh pairs and the Dispense succeed, no panic, 10s after Kill no host goroutine is left in go-plugin broker code"},
 		Plan: func(tier string, seed uint64, stage int, prev []*h.Result) []*k.Spec {
 			if stage > 0 {
